@@ -501,3 +501,19 @@ def check_input_copy(ctx: Ctx, oid: str):
             ctx.ob(oid, "R17 PARAM-IMMUTABLE", f, "a clause is left out of the working list only by a test on the very literal collection that is kept", ok, why + (": a clause such as [x, x, y] (a repeated literal, not a tautology) is dropped and the solver answers for a weaker formula" if why else ""), node=d)
             continue
         ctx.ob(oid, "R17 PARAM-IMMUTABLE", f, "the working clause list is a recognisable copy of the input", False, f"`{ast.unparse(v)[:60]}`", node=d)
+
+
+def check_variable_universe(ctx: Ctx, oid: str):
+    """Every array of the solver is sized by n_vars: it must cover the variables of the clauses and of the assumptions
+    (an assumed variable need not occur in any clause)."""
+    f = ctx.func("sat", "solve_sat")
+    cfg = cfg_of(f.node)
+    srcs = set()
+    for n in own_nodes(f.node):
+        if isinstance(n, ast.Assign) and ast.unparse(n.targets[0]) == "n_vars" and "lit_var" in ast.unparse(n.value):
+            lp = cfg.node_of(n).loop
+            while lp is not None:
+                if lp.kind == "for":
+                    srcs.add(ast.unparse(lp.ast.iter))
+                lp = lp.loop
+    ctx.ob(oid, "R18 table", f, "the variable count ranges over the clauses and over the assumptions", {"clauses", "assumptions"} <= srcs, f"n_vars is the maximum over {sorted(srcs)}: a literal of a variable beyond it indexes the value / watch arrays out of range (IndexError instead of a verdict)", node=f.node)
